@@ -78,6 +78,29 @@ def expand(job):
     elif k == "cases":
         for c in job["cases"]:
             yield c
+    elif k == "land":
+        # results that land EXACTLY on a boundary day (first / last day of each month, the days around the end of February,
+        # the first and last day of the year) from a spread of distances, forwards and backwards, in all three representations
+        sp, y = job["mode"], job["y"]
+        m = MEANING[sp]
+        n0 = R.year_start(m, y)
+        targets = {n0, n0 + R.diy(m, y) - 1, n0 - 1, n0 + R.diy(m, y)}
+        acc = 0
+        for ml in R.mlens(m, y):
+            targets |= {n0 + acc, n0 + acc - 1}
+            acc += ml
+        targets |= {n0 + 57, n0 + 58, n0 + 59, n0 + 60}
+        for t in sorted(targets):
+            for kdays in (1, 2, 27, 28, 29, 30, 31, 32, 58, 59, 60, 61, 89, 90, 365, 366, 367, 730, 731, 1461):
+                for sg in (1, -1):
+                    start = t - sg * kdays
+                    rep = rnd.choice(["cal", "cal", "ord", "week"])
+                    yy, a_, b_ = R.date_of(m, rep, start)
+                    unit = rnd.choice(["d", "d", "h", "w"] if kdays % 7 == 0 else ["d", "d", "h"])
+                    dd = {"d": sg * kdays} if unit == "d" else {"h": sg * kdays * 24} if unit == "h" else {"w": sg * kdays // 7}
+                    sod = rnd.choice([0, 0, 43200, 86399, DAY])
+                    yield {"mode": sp, "p": tp_rec(rep, yy, a_, b_, sod=sod, zh=rnd.choice([0, 5, -3]), zm=0, xd=2 if yy < 0 else 0), "d": dd,
+                           "how": rnd.choice(["add", "radd", "sub"])}
     else:
         raise ValueError(k)
 
@@ -117,9 +140,13 @@ def jobs(tier, seed):
             out.append({"kind": "sweep", "mode": sp, "y": y, "zone": [(0, 0), (5, 30), (-3, -30)][i % 3]})
         for j in range(8):
             out.append({"kind": "random", "n": 1500, "seed": seed * 100 + j})
+        for i, (sp, y) in enumerate(SWEEPS_Q):
+            out.append({"kind": "land", "mode": sp, "y": y, "seed": seed * 100 + 50 + i})
     else:
         for i, (sp, y) in enumerate(SWEEPS_T):
             out.append({"kind": "sweep", "mode": sp, "y": y, "allreps": True, "zone": [(0, 0), (5, 30), (-3, -30), (13, 45)][i % 4]})
         for j in range(48):
             out.append({"kind": "random", "n": 12000, "seed": seed * 1000 + j, "pfrac": 0.3})
+        for i, (sp, y) in enumerate(SWEEPS_T):
+            out.append({"kind": "land", "mode": sp, "y": y, "seed": seed * 1000 + 500 + i})
     return out
